@@ -136,7 +136,7 @@ def rule_matches(pattern, rel, is_dir):
     if anchored:
         return re.fullmatch(regex, rel) is not None
     if '/' in body or '**' in body:
-        return re.fullmatch('(?:.*/)?' + regex, rel) is not None
+        return re.fullmatch('(?:.*/)?' + regex, '/' + rel) is not None  # (rsync matches such patterns against '/' + name)
     return re.fullmatch(regex, rel.rsplit('/', 1)[-1]) is not None
 
 
@@ -212,7 +212,7 @@ def copy_file(src, dst, link_candidate, point, stats):
         handle.close()
 
 
-def rsync(src, dest, link_dest=None, src_trailing_slash=False, excludes=(), point=None, stats=None):  # pylint: disable=too-many-arguments,too-many-locals
+def rsync(src, dest, link_dest=None, src_trailing_slash=False, excludes=(), point=None, stats=None, dest_trailing_slash=False):  # pylint: disable=too-many-arguments,too-many-locals
     """``rsync -a [--link-dest=..] [--exclude ..] src[/] dest`` for local paths."""
     point = point or (lambda kind, path: None)
     stats = stats if stats is not None else {'copied': 0, 'linked': 0, 'skipped': 0, 'vanished': 0}
@@ -228,21 +228,29 @@ def rsync(src, dest, link_dest=None, src_trailing_slash=False, excludes=(), poin
         return stats  # the transfer root itself is excluded: nothing is sent
     if os.path.isfile(src):
         cand = os.path.join(str(link_dest), top) if link_dest else None
-        if os.path.isdir(dest):
+        if os.path.isdir(dest) or dest_trailing_slash:
+            os.makedirs(dest, exist_ok=True)
             copy_file(src, os.path.join(dest, top), cand, point, stats)
         else:
             # a single file to a destination that does not exist: the destination *is* the file name
             os.makedirs(os.path.dirname(dest) or '.', exist_ok=True)
             copy_file(src, dest, cand, point, stats)
         return stats
+    dest_missing = not os.path.lexists(dest)
     if not os.path.isdir(dest):
         os.makedirs(dest, exist_ok=True)
     if src_trailing_slash:
         base_rel = ''
     else:
         base_rel = top
-        os.makedirs(os.path.join(dest, base_rel), exist_ok=True)
     dirs, files = scan(src, rules, prefix=base_rel)
+    if base_rel and dest_missing and not dest_trailing_slash and not dirs and not files:
+        # rsync: a transfer of exactly one item to a destination that does not exist (and is not written with a trailing
+        # slash) makes the destination the *name of the copy* - for a single file and equally for a single empty
+        # directory: `rsync -a c/loose bk/new` with an empty loose/ creates bk/new as the copy of loose, not bk/new/loose
+        return stats
+    if base_rel:
+        os.makedirs(os.path.join(dest, base_rel), exist_ok=True)
     for rel in dirs:
         os.makedirs(os.path.join(dest, base_rel, rel), exist_ok=True)
     failed = None
@@ -307,7 +315,6 @@ def make_manager_class(backup_utils):
             return False, ''
 
         def call_rsync(self, src, dest, link_dest=None, src_trailing_slash=False, dest_trailing_slash=False, extra_args=None):  # pylint: disable=too-many-arguments
-            del dest_trailing_slash
             excludes = []  # ordered filter rules ('+' | '-', pattern)
             extra = [str(arg) for arg in (extra_args or [])]
             while extra:
@@ -332,6 +339,7 @@ def make_manager_class(backup_utils):
                     dest,
                     link_dest=link_dest,
                     src_trailing_slash=src_trailing_slash,
+                    dest_trailing_slash=dest_trailing_slash,
                     excludes=excludes,
                     point=lambda kind, path: SIM.point(kind, path, False),
                     stats=SimBackupManager.stats,
@@ -360,3 +368,31 @@ def make_manager_class(backup_utils):
     SimBackupManager.run_cmd = guarded(SimBackupManager.run_cmd)
     SimBackupManager.call_rsync = guarded(SimBackupManager.call_rsync)
     return SimBackupManager
+
+
+def make_real_manager_class(backup_utils):
+    """The library's own BackupManager with the *real* /usr/bin/rsync and coreutils (no stub): every external call is one
+    scheduling point (phase granularity - the program runs to completion before anybody else is scheduled). Source files
+    get their logical mtimes first, exactly as in the stub, because the simulation outruns the timestamp granularity of
+    the file system and rsync's quick check (size + mtime) would otherwise see changed files as unchanged."""
+
+    class RealBackupManager(backup_utils.BackupManager):
+        stats = None
+
+        def call_rsync(self, src, dest, *args, **kwargs):  # pylint: disable=arguments-differ
+            SIM.point('rsync.call', dest, False)
+            CLOCK.stamp_tree(str(src))
+            if RealBackupManager.stats is None:
+                RealBackupManager.stats = {'copied': 0, 'linked': 0, 'skipped': 0, 'vanished': 0, 'calls': 0}
+            RealBackupManager.stats['calls'] += 1
+            with SIM.quiet():
+                return super().call_rsync(src, dest, *args, **kwargs)
+
+        def run_cmd(self, args):
+            sargs = [str(a) for a in args]
+            prog = sargs[0]
+            SIM.point('cmd.' + prog, sargs[-1] if prog != '[' else sargs[2], prog in ('mv', 'rm', 'ln', 'mkdir'))
+            with SIM.quiet():
+                return super().run_cmd(args)
+
+    return RealBackupManager
